@@ -49,6 +49,10 @@ func symbols(dim int) *sl.Symbols {
 		sl.Op{Name: "del2,3,4(neighbourhood)", Kind: "del", Ids: []int{2, 3, 4}},
 		sl.Op{Name: "del all", Kind: "del", Ids: []int{1, 2, 3, 4, 5, 6}},
 		sl.Op{Name: "ins1,2(reuse ids, new places)", Kind: "ins", Ids: []int{1, 2}, Docs: []sl.Doc{d(10), d(11)}},
+		// batches whose storage transaction fails to commit after the graph work is done
+		sl.Op{Name: "ins9,10,11 !commit-fails", Kind: "ins", Ids: []int{9, 10, 11}, Docs: []sl.Doc{d(12), d(13), d(14)}},
+		sl.Op{Name: "del2,3,4(neighbourhood) !commit-fails", Kind: "del", Ids: []int{2, 3, 4}},
+		sl.Op{Name: "upd1(move) !commit-fails", Kind: "upd", Ids: []int{1}, Docs: []sl.Doc{{prop: lat[7]}}},
 	)
 	if dim < 48 {
 		return syms
@@ -137,6 +141,11 @@ func master(cfg *harness.Config, rep *harness.Report) {
 			}
 			if alpha == 1.1 && deg == 32 {
 				specs = append(specs, seqx.Spec{Name: name + "/cold", Cfg: cold, Alphabet: syms.Refs(small...), Depth: depth - 1})
+			}
+			if deg == 32 {
+				// failing commits leave the warm graph cache as it was: a failed batch followed by small successful ones
+				failing := []string{"ins1", "ins2,3,4", "del1", "ins9,10,11 !commit-fails", "del2,3,4(neighbourhood) !commit-fails", "upd1(move) !commit-fails"}
+				specs = append(specs, seqx.Spec{Name: name + "/warm/failing-commits", Cfg: warm, Alphabet: syms.Refs(failing...), Depth: depth})
 			}
 		}
 	}
